@@ -158,6 +158,14 @@ class Gen:
         if kind == "hex16":
             if cls == "valid":
                 loc = {"watched": self.info["loc"]["watched"], "triggered": self.info["loc"]["triggered"]}.get(ctx["loc"])
+                if ctx["loc"] == "resolved":
+                    # reading uses the first of the pool (never re-submitted); every re-submission takes the next one
+                    pool = self.info["loc"]["resolved"]
+                    if ctx.get("ep") == "get_appointment":
+                        loc = pool[0]
+                    else:
+                        self.n_resolved = getattr(self, "n_resolved", 0) + 1
+                        loc = pool[1 + (self.n_resolved - 1) % (len(pool) - 1)]
                 loc = loc or hx(self.rbytes(16))
                 return jstr(loc if rng.random() < 0.8 else loc.upper()), binascii.unhexlify(loc)
             if cls == "wrongsize":
@@ -225,7 +233,7 @@ def build_body(gen, case, ep, limit, style=None):
     -> (body text with SIG_TOKEN, sign directive or None)"""
     rng = gen.rng
     fc = case["fc"]
-    ctx = {"signer": case["signer"], "loc": case["loc"]}
+    ctx = {"signer": case["signer"], "loc": case["loc"], "ep": ep}
     fields = gen.meta["fields"][ep]
     inner = set(gen.meta["inner"]) if ep == "add_appointment" else set()
     kinds = gen.meta["kinds"]
@@ -771,7 +779,7 @@ def main(tier, replay=None):
         "request); bodies above the size limit and chunked bodies (any 4xx or treated normally); HEAD /ping; a further path "
         "segment after an endpoint; a Content-Type other than exactly application/json (refused with any 4xx or ignored); for requests that are not POST to an endpoint only '4xx, state unchanged, prompt' is demanded",
         "tower-state classes are produced on real towers through the real API and chain events (expired = subscription over within "
-        "the grace period; noslots = all slots used; triggered = dispute mined and answered; maxed = tower with 2^31 slots per "
+        "the grace period; noslots = all slots used; triggered = dispute mined and answered; resolved = dispute mined, node said the penalty is already on chain (held, no tracker); maxed = tower with 2^31 slots per "
         "registration, user registered once); bitcoind unreachable = the tower's reachability flag cleared",
         "state = every row of every table of the tower's SQLite file plus the gatekeeper's in-memory user records, compared before "
         "and after each request; prompt = answer complete within %d ms on loopback" % prompt_ms,
